@@ -170,6 +170,12 @@ def run(ctx):
             if not (wf and ordered):
                 if st == "internal":
                     ctx.count("wf:excluded_internal:" + ("illformed" if not wf else "unordered"))
+                    # positions that lie inside the document, in whatever order, are inside the property's quantifier
+                    # ("steps … whose positions lie inside the document"): dying with an internal error there is a violation
+                    size = d.content.size
+                    poss = [getattr(step, a) for a in ("from_", "to", "gap_from", "gap_to", "pos") if hasattr(step, a)]
+                    if wf and all(isinstance(x, int) and 0 <= x <= size for x in poss):
+                        ctx.violation("internal-error", f"Step.apply of a step whose positions lie inside the document (not in order) died with an internal error: {res}", replay)
                 continue
             if st in ("internal", "hang"):
                 ctx.violation("internal-error", f"Step.apply of a well-formed step died with an internal error: {res}", replay)
